@@ -23,13 +23,13 @@ ASSUMPTIONS = ["hash seeds are sampled, not controlled: an order dependence that
                "is detected with probability < 1"]
 
 PROFILE = S.profile(renames=0.4, dups=0.1, attrs=0.2, sizes=[("small", 45), ("medium", 50), ("large", 5)],
-                    orders=["perm", "perm", "identity", "reverse"])
+                    orders=["perm", "identity", "perm", "identity", "reverse"])
 
 
 @st.composite
 def cases(draw, tier="quick"):
     spec = draw(S.enum_specs(PROFILE))
-    cfg = draw(S.configs(spec, p_on=0.7))
+    cfg = draw(S.configs(spec, p_on=0.7, p_sorted=0.5))
     return {"spec": spec, "cfg": cfg, "procs": PROCS.get(tier, 8)}
 
 
